@@ -41,24 +41,36 @@ def _solve_one(job):
     verdict, backend, reason = 'unknown', 'z3', ''
     if smt2_ack is not None:
         # Ackermann abstraction of the sidecar's spec functions (pyvc/ack.py), done here in the worker on the parsed
-        # assertions: only `unsat` is a verdict.  Stage 1 without functional consistency (pure abstraction, cheap),
-        # stage 2 with it.
+        # assertions: only `unsat` is a verdict.  Quick plain attempt first; then quantifier-free hypotheses only
+        # (dropping hypotheses is sound), without and with functional consistency; then everything.  Each abstracted
+        # problem goes to z3 briefly and then to cvc5 (much better at the remaining word equations).
         try:
+            v0, _r0 = _z3_try(smt2, 1500)
+            if v0 != 'unknown':
+                return idx, v0, 'z3', time.time() - t0, ''
             from . import ack
             ps = z3.Solver()
             ps.from_string(smt2)
-            asserts = list(ps.assertions())
-            for k_, cong in enumerate((False, True)):
-                ab = ack.abstract(asserts, z3.BoolVal(False), smt2_ack, congruence=cong)
+            asserts = ack.flatten(list(ps.assertions()))
+            qf = [z for z in asserts if not ack.has_quantifier(z)]
+            stages = [(qf, False, 2000, 10, 'ack0'), (qf, True, 3000, 15, 'ack')]
+            if len(qf) != len(asserts):
+                stages.append((asserts, True, 6000, 20, 'ackq'))
+            for hyps, cong, tmo, ctmo, tag_ in stages:
+                ab = ack.abstract(hyps, z3.BoolVal(False), smt2_ack, congruence=cong)
                 if ab is None:
                     break
                 s2 = z3.Solver()
-                s2.set('timeout', min(timeout_ms, 6000) if k_ == 0 else timeout_ms)
+                s2.set('timeout', min(timeout_ms, tmo))
                 s2.add(*ab[0])
                 if s2.check() == z3.unsat:
-                    return idx, 'proved', 'z3-ack' if cong else 'z3-ack0', time.time() - t0, ''
+                    return idx, 'proved', 'z3-' + tag_, time.time() - t0, ''
+                if use_cvc5:
+                    v2, _why = _cvc5(s2.to_smt2(), tlimit_s=ctmo)
+                    if v2 == 'proved':
+                        return idx, 'proved', 'cvc5-' + tag_, time.time() - t0, ''
         except Exception as e:
-            reason = 'z3-ack error: ' + repr(e)
+            reason = 'ack error: ' + repr(e)
     if cvc5_first and use_cvc5:
         # opt-in (spec.cvc5_first = True): word-equation heavy obligations that cvc5 settles in milliseconds
         v1, why1 = _cvc5(smt2)
@@ -86,17 +98,18 @@ def _solve_one(job):
     return idx, verdict, backend, time.time() - t0, reason
 
 
-def _cvc5(smt2):
+def _cvc5(smt2, tlimit_s=None):
     if ' sep ' in smt2 or '(sep ' in smt2:
         return 'unknown', 'not exportable to cvc5'
     # z3 prints in-bounds element access as seq.nth_i; cvc5 knows seq.nth (both underspecified out of bounds)
-    text = '(set-logic ALL)\n' + smt2.replace('seq.nth_i', 'seq.nth')
+    text = '(set-logic ALL)\n' + smt2.replace('seq.nth_i', 'seq.nth').replace('seq.nth_u', 'seq.nth')
     with tempfile.NamedTemporaryFile('w', suffix='.smt2', delete=False) as f:
         f.write(text)
         path = f.name
     try:
-        p = subprocess.run(['/usr/bin/cvc5', '--strings-exp', f'--tlimit={CVC5_TIMEOUT_S * 1000}', path],
-                           capture_output=True, text=True, timeout=CVC5_TIMEOUT_S + 5)
+        tl = tlimit_s or CVC5_TIMEOUT_S
+        p = subprocess.run(['/usr/bin/cvc5', '--strings-exp', f'--tlimit={tl * 1000}', path],
+                           capture_output=True, text=True, timeout=tl + 5)
         out = p.stdout.strip().splitlines()
         if out and out[0] == 'unsat':
             return 'proved', ''
